@@ -24,7 +24,7 @@ GEN = ["qsshift", "siqssel"]
 LEAN = ["Ymq.Props.C12"]
 AUDIT = "Ymq.Audit.C12"
 THEOREMS = ["Ymq.C12." + t for t in (
-    "siqs_identity siqs_identity_model eval_eq_polyVal siqs_B_sq walk_B_sq min_trick gray_step roots_inv roots_walk poly_exact poly_exact_domain siqs_walk_total stale_c_check_witness size_assert_fails_470 roots_exact roots_exact_unit select_window_assert select_a_sound siqs_select_walk_total select_a_never_returns select_a_hang_witness select_assert_fires_witness siqs_params_in_domain hensel_lift mpqs_identity prepare_prime_exact qs_roots_exact lgblock_shift").split()]
+    "siqs_identity siqs_identity_model eval_eq_polyVal siqs_B_sq walk_B_sq min_trick gray_step roots_inv roots_walk poly_exact poly_exact_domain siqs_walk_total stale_c_check_witness size_assert_fails_470 roots_exact roots_exact_unit select_window_assert select_a_sound siqs_select_walk_total select_a_never_returns select_a_hang_witness select_assert_fires_witness siqs_params_in_domain hensel_lift mpqs_identity make_poly_total prepare_prime_exact qs_roots_exact lgblock_shift").split()]
 HYPOTHESES = []
 PROFILES = ["release", "chk"]
 TIMEOUT = 60.0
@@ -44,6 +44,9 @@ MODELLED = [
     "siqs::{prepare_a, Poly::first, Poly::next, _finish_polynomial, Poly::eval, SieveSIQS::new (offsets, nsqrt)} and the table of inverses "
     "of select_siqs_factors (Ymq/Model/SiqsPoly.lean): u32 wrap-around of the min trick, I256/i32 overflow, every assert/debug_assert/"
     "unreachable!/unwrap as `none`",
+    "siqs::{select_siqs_factors (target, pool, window, assertion), select_a (exhaustive branch, sampling loop with the built-in xorshift "
+    "generator, tolerance widening, early exit, fuel = non-termination)} (Ymq/Model/SiqsSelect.lean); seed, shifts and loop constants "
+    "translated from the source (translate/siqssel.py -> Ymq/Gen/SiqsSel.lean), a_tolerance_divisor from Ymq/Gen/Params.lean (C20)",
     "mpqs::{make_poly, Poly::prepare_prime (p = 2, p | D, generic), Poly::eval} and the specification of Workspace::batch_inversion "
     "(Ymq/Model/MpqsPoly.lean)",
     "qsieve::SieveQS::{new, prepare_prime_fwd, prepare_prime_bck, nblocks} (Ymq/Model/QsRoots.lean); the closure next_lgblock is "
@@ -52,13 +55,16 @@ MODELLED = [
 UNMODELLED = [
     "FBase::new enters as data (primes and square roots are taken from the real code's answer); the oracle checks r^2 = n mod p, r < p and "
     "primality for every entry of every run",
-    "the sampling of A values (select_siqs_factors window, select_a) is taken from the real code's answer; the model recomputes the table of "
-    "inverses and everything downstream",
+    "the walk ops take the selection and A from the real code's answer (or from the generator: siqs_custom); select_siqs_factors and select_a "
+    "are compared separately (siqs_select) on the same factor bases",
     "Dividers::{mod_uint, divmod64, modu63, modi64}, arith::inv_mod64, Inverter::invert, arith_gcd::inv_mod are taken at their specification "
     "(exact remainder / modular inverse): properties C08 and C09",
     "next_lgblock is local to qsieve(): tied to the source by the translator, not by differential runs; the arrays of the model are one "
     "record per prime (array of structs) where the Rust code has one array per quantity",
-    "bnum U1024/U256/I256 operators and num_integer::sqrt are modelled as the mathematical operations with explicit range checks",
+    "bnum U1024/U256/I256 operators and num_integer::sqrt are modelled as the mathematical operations with explicit range checks; "
+    "slice::sort_by_key/sort as a stable merge sort, BTreeSet as a strictly increasing list",
+    "the model has the semantics of the checked profile: where the release profile wraps instead (shift amount >= 64 in select_a for 17 "
+    "factors and more, debug_assert-only checks) the comparison is run in the checked profile only",
 ]
 
 SMALL_PRIMES = [p for p in range(2, 200) if all(p % q for q in range(2, p))]
@@ -726,22 +732,26 @@ def nontrivial(case, ans):
     return h is not None and body not in ("sel-panic", "no-a", "no-d")
 
 
-CLAIM = ("Lean theorems about line-by-line models of the polynomial preparation of the three sieves. SIQS: the defining identities (abstract and for "
-         "the model's polynomials), the CRT basis of prepare_a (every combination of roots squares to n mod A; parity rule: B odd and B^2 = n "
-         "mod 4A for type 2), B of every polynomial of the Gray walk is the Gray-selected sum (so the divisibility and parity assertions cannot "
-         "fail), the Gray-code step (the code's assertion, all idx < 2^63), the u32 min trick, the root invariant after first and its "
-         "preservation by next, hence for every index of the walk, and exactness of the tables: for every prime not dividing a2a exactly the two "
-         "roots, for odd primes dividing A the single root, for p = 2 (type 2) a superset. MPQS: Hensel lift (also for composite D), identities of "
-         "make_poly, all three branches of prepare_prime (p = 2, p | D with either sign of C, generic). QS: forward/backward roots incl. only-odds "
-         "mode, and the root shift of next_lgblock (translated from the source). The models are tied to the code by differential runs (release "
-         "and checked profiles) on polynomials the real code builds; a Python oracle enumerates root sets and checks the identities on every "
-         "polynomial of the run.")
+CLAIM = ("Lean theorems about line-by-line models of the polynomial preparation of the three sieves. SIQS: the defining identities; the CRT "
+         "basis of prepare_a (every combination of roots squares to n mod A, parity rule for type 2); B of every polynomial of the Gray walk is "
+         "the Gray-selected sum; the Gray-code step; the u32 min trick; the root invariant after first, preserved by next, hence at every "
+         "index; exactness of the tables (two roots for primes not dividing a2a, the single root for odd primes dividing A, a superset for "
+         "p = 2, also for the unit polynomial A = 1). Second pass: on the parameter domain (0 < n < 2^448, 2^15 <= M < 2^20 as "
+         "interval_size gives, target/4 <= A <= 4 target, A >= 3/4 target from 5 factors on) prepare_a, first and every next return "
+         "(siqs_walk_total: all size assertions, rounded root, inverses, overflow checks), the stored C is exact and below 2^254 "
+         "(poly_exact_domain); select_siqs_factors returns iff its pool has more than nfacs primes, select_a returns products of nfacs "
+         "distinct selected primes inside a tolerance window, and from the outputs of both the walk is total end to end "
+         "(siqs_select_walk_total); counter-witnesses checked by the kernel and reproduced on the real code: the size assertion fails for a "
+         "470-bit n with the driver's own parameters, an absurd A lets a truncated C through, select_a never returns for an 8-prime factor "
+         "base (for all fuel), the window assertion fires. MPQS: Hensel lift (also composite D), identities and totality of make_poly, all "
+         "three branches of prepare_prime. QS: forward/backward roots incl. only-odds mode, root shift of next_lgblock. The models are tied "
+         "to the code by differential runs (release and checked profiles) on what the real code builds; a Python oracle enumerates root "
+         "sets and checks the identities on every polynomial of the run.")
 LEVEL_NOTE = ("Trusted: Lean kernel (+propext, Classical.choice, Quot.sound); the correspondence of the hand models to the Rust code (sampled, not "
-              "proved: every run compares A-data, B, C, rounded root, both root tables and five evaluations per polynomial byte for byte); the "
-              "translator for next_lgblock; Dividers/Inverter/inv_mod/inv_mod64 at their specification (C08, C09); the factor base as data (FbOk: "
-              "primes, r < p, r^2 = n mod p, checked by the oracle on every run). Theorems are soundness statements about what the model returns "
-              "(`= some`): the size assertions of _finish_polynomial (rounded root inside the interval, bit lengths) are parameter-dependent and are "
-              "not proved to hold; the mathematical assertions (Gray step, divisibility of B^2 - n, parity of B, r0 <= r1) are proved never to fail. "
-              "Exactness of the stored C needs the exact quotient to fit an I256 (hypothesis of poly_exact: the code's own check of this reads the "
-              "previous polynomial's C). select_siqs_factors/select_a sampling is taken from the code's answer.")
+              "proved: every run compares A-data, B, C, rounded root, both root tables and five evaluations per polynomial, and target, selection "
+              "and A lists of the selection code, byte for byte); the translators (next_lgblock, select constants, parameter functions); "
+              "Dividers/Inverter/inv_mod/inv_mod64 at their specification (C08, C09); the factor base as data (FbOk, checked by the oracle on "
+              "every run). Totality is proved on the stated domain only: above 2^448 and for absurd preferences (fb_size = 8) the witnesses "
+              "show real panics / non-termination; termination of select_a's sampling loop in general depends on its generator and is not "
+              "proved (a necessary condition is). For MPQS totality needs n < 2^254 D^2 and r^2 <= n as explicit hypotheses.")
 TECHNIQUE = "Lean 4 proof about a hand model + differential correspondence check + spec oracle"
